@@ -26,6 +26,16 @@ EXEMPT = {
 }
 
 
+def m_append_open(f, c):
+    """an OpenOptions::open whose builder chain sets append(true)"""
+    if not dur.m(c, dur.P_OPEN):
+        return False
+    for o in f.normal_calls():
+        if o.static == dur.P_APPEND and f.dominates(o.bb, c.bb):
+            return True
+    return False
+
+
 def run(F, ctx):
     ctx.explanation = (
         "Decides the structural clauses that every crash point must pass through: (DUR-1) in immediate mode an append reaches BufWriter::flush and "
@@ -240,4 +250,33 @@ def run(F, ctx):
     ctx.site("replay_wal: every iteration reaches the buffer push", rw.where(), ok=ok)
     if not ok:
         ctx.violation(FP + "::replay_wal:R-DUR-6:entry-skipped", "replay_wal can skip an entry it read from the log (an iteration reaches the next entry without pushing the update into the shard's buffer): an acknowledged write that is only in the WAL - e.g. one that arrived, out of timestamp order, after a flush - is dropped at recovery", rw.where(wit[0] if wit else None), detail="witness blocks %s" % wit)
+    ctx.end_rule()
+
+    # ---- DUR-7
+    ctx.rule("R-DUR-7", "WAL append after recovery: the writer looks at the last byte of the existing log and starts on a fresh line when the log does not end with a newline", floor=1)
+    ew = F.fn(WAL + "::ensure_writer")
+    opens = [c for c in ew.normal_calls() if m_append_open(ew, c)]
+    if not opens:
+        raise CheckError("ensure_writer: append-mode open of the log not found (anchor moved)")
+    seeks = [c for c in ew.normal_calls() if re.search(r"std::io::Seek>::seek$", c.static_args or "")]
+    reads = [c for c in ew.normal_calls() if re.search(r"std::io::Read>::(read_exact|read|read_to_end)$", c.static_args or "") or re.search(r"^std::fs::read(::<.*>)?$", c.static_args or "")]
+    writes = [c for c in ew.normal_calls() if re.search(r"std::io::Write>::write_all$", c.static_args or "")]
+    # the newline write is conditional on what was read
+    rd = set()
+    for c in reads:
+        rd |= ew.derive({op_local(a) for a in c.args if op_local(a) is not None} | {c.dst["l"]}, through_calls=True)
+    conditional = False
+    for w in writes:
+        for i in sorted(ew.live_blocks()):
+            t = ew.term(i)
+            if t.get("k") != "switch":
+                continue
+            sc = ew.succ(i)
+            dom = [x for x in sc if ew.dominates(x, w.bb)]
+            if dom and len(dom) < len(set(sc)):
+                conditional = True
+    ok = bool(reads) and bool(writes) and conditional
+    ctx.site("ensure_writer: tail of the existing log inspected, newline written when it is torn", ew.where(), ok=ok, tail_reads=len(reads), seeks=len(seeks), newline_writes=len(writes))
+    if not ok:
+        ctx.violation(WAL + "::ensure_writer:R-DUR-7:append-glued-to-torn-tail", "the log is opened for append without looking at its last byte: when a crash left a torn last line without a newline, the next acknowledged entry is written onto the same line, fails the checksum with it at the following recovery and is lost", ew.where())
     ctx.end_rule()
